@@ -665,6 +665,19 @@ theorem inv_loaded (t : Tree) (S : LayerSet) (ht : CleanTree lower t) (h : loadT
 
 end
 
+/-- the all-layers filter is the full load -/
+theorem filter_all_true {α : Type} (l : List α) : (l.filter fun _ => true) = l := by
+  induction l with
+  | nil => rfl
+  | cons a r ih => simp [List.filter_cons, ih]
+
+theorem loadTreeF_all (lower : Str → Str) (t : Tree) :
+    loadTreeF lower { all := true, loadDefault := false, custom := none } t = loadTree lower t := by
+  unfold loadTreeF loadTree
+  simp only [LFilter.shouldLoad, LFilter.includesDefault, Bool.true_or, Bool.or_false,
+    Bool.not_true, Bool.false_and, Bool.false_eq_true, if_false]
+  rw [filter_all_true]
+
 -- non-vacuity: the hypotheses of `inv_reachable` / `save_load_reports` are met by a concrete, non-trivial
 -- history (two layers, a rename with overwrite, a retain)
 example :
